@@ -34,6 +34,7 @@ TECHNIQUE = "Coq proof (invariant + induction over request lists) + vm_compute d
 def c16_oracle(ctx, sid, steps, recs):
     counted = 0
     limit_step = None
+    pinned = None           # username of the first request that got past the service check (tracked by the oracle itself)
     for i, rec in enumerate(recs):
         tr = rec["trace"]
         info = rec["info"]
@@ -54,9 +55,11 @@ def c16_oracle(ctx, sid, steps, recs):
                              "not answered by DISCONNECT(service not available) + close without callbacks",
                              case=case_repr(sid, steps[:i + 1]), expected="DISCONNECT 7, close, no callbacks",
                              observed=repr(tr))
-            elif b["user"] is not None and b["user"] != user:
+            elif pinned is None:
+                pinned = user
+            elif pinned != user:
                 good = (not cbs and closed and snd and snd[0][:5] == b"\x01\x00\x00\x00\x0e"
-                        and not rec["after"]["authed"] and rec["after"]["user"] == b["user"])
+                        and not rec["after"]["authed"] and rec["after"]["user"] == pinned)
                 if not good:
                     ctx.fail("username-change-not-rejected", "a request for a different username than the pinned one "
                              "was not answered by DISCONNECT(no more auth methods) + close without callbacks",
@@ -103,6 +106,96 @@ def ungated_sequences(ctx, n):
                 ctx.fail("ten-failures-no-disconnect" if (closes_at or 99) > 10 else "disconnect-before-ten-failures",
                          "ten failed passwords must close the transport at exactly the tenth failure",
                          case=case_repr(b"SID", steps), expected=10, observed=closes_at)
+
+
+def _req(user, method, extra=b""):
+    return s_(user) + s_(b"ssh-connection") + s_(method) + extra
+
+
+def cap_witness(ctx):
+    """Fifteen failures through every route that can count one (direct drive, real AuthHandler, run-loop gate ON and
+    OFF): the tenth counted failure must close the transport in the same step and nothing is evaluated afterwards."""
+    World, _, _ = c14.make_world()
+    holder = {}
+    base = {"res": 2, "gss": True, "mechok": True, "tok": 2, "micok": True, "kexctx": True, "banner": False,
+            "keyok": True, "bits": c14.toy_bits(b"key1")}
+    pw = (50, _req(b"alice", b"password", b"\x00" + s_(b"pw")), base)
+    change = (50, _req(b"alice", b"password", b"\x01" + s_(b"pw") + s_(b"new")), base)
+    none = (50, _req(b"alice", b"none"), base)
+    badsig = (50, _req(b"alice", b"publickey", b"\x01" + s_(b"toy-a") + s_(b"key1") + s_(s_(b"toy-a") + s_(b"zzzz"))),
+              dict(base, res=0))
+    kbd_fail = (50, _req(b"alice", b"keyboard-interactive", s_(b"") + s_(b"")), base)
+    kbd_query = (50, _req(b"alice", b"keyboard-interactive", s_(b"") + s_(b"")), dict(base, res=3))
+    resp = (61, struct.pack(">I", 1) + s_(b"wrong"), base)
+    keyex = (50, _req(b"alice", b"gssapi-keyex", s_(b"mic")), base)
+    routes = {"password": [pw] * 15, "password-change-request": [change] * 15, "none": [none] * 15,
+              "publickey-bad-signature": [badsig] * 15, "keyboard-interactive-request": [kbd_fail] * 15,
+              "keyboard-interactive-responses": [kbd_query] + [resp] * 15,
+              "gssapi-keyex-rejected": [keyex] * 15,
+              "mixed": [pw, kbd_query, resp, none, resp, badsig, keyex, resp, change, resp, resp, pw, resp, none, pw],
+              "nine-requests-then-responses": [pw] * 9 + [kbd_query] + [resp] * 6}
+    with c14.gss_patch(holder):
+        for name, hist in sorted(routes.items()):
+            for gate in (True, False):
+                steps = [(p, pl, env, None, {}) for (p, pl, env) in hist]
+                w = World(b"SID-c")
+                holder["world"] = w
+                counted, tenth, closed_at, late = 0, None, None, 0
+                for i, st in enumerate(steps):
+                    tr = w.deliver(*st[:3], gate=gate)
+                    if tenth is not None and gate:      # (without the gate the handlers are called on purpose)
+                        late += sum(1 for ev in tr if ev[0] == "cb")
+                    counted += sum(1 for m in sends(tr) if m[:1] == b"\x33" and m[-1:] == b"\x00")
+                    if tenth is None and counted >= 10:
+                        tenth = i
+                    if closed_at is None and any(ev[0] == "close" for ev in tr):
+                        closed_at = i
+                ctx.count(("cap-witness", name, gate), kind="cap-witness")
+                if tenth is None or closed_at != tenth or late:
+                    ctx.fail("ten-failures-no-disconnect:" + name,
+                             "route %s (%s run-loop gate): tenth counted failure in step %r, transport closed in step %r, "
+                             "%d credential callbacks afterwards" % (name, "with" if gate else "without", tenth, closed_at, late),
+                             case=case_repr(b"SID-c", steps), expected="closed in the step of the tenth failure, nothing after",
+                             observed={"tenth": tenth, "closed_at": closed_at, "late_callbacks": late})
+                    break
+
+
+def pin_witness(ctx):
+    """Every kind of first contact -- including those that do not end in a USERAUTH_FAILURE (PK_OK query, pending
+    keyboard-interactive, pending gssapi-with-mic) -- pins the username: a second request under another name is
+    answered by DISCONNECT + close, no callback, nobody authenticated."""
+    World, _, _ = c14.make_world()
+    holder = {}
+    base = {"res": 0, "gss": True, "mechok": True, "tok": 2, "micok": True, "kexctx": True, "banner": False,
+            "keyok": True, "bits": c14.toy_bits(b"key1")}
+    firsts = {"publickey-query(PK_OK)": (50, _req(b"alice", b"publickey", b"\x00" + s_(b"toy-a") + s_(b"key1")), base),
+              "keyboard-interactive-pending": (50, _req(b"alice", b"keyboard-interactive", s_(b"") + s_(b"")), dict(base, res=3)),
+              "gssapi-with-mic-pending": (50, _req(b"alice", b"gssapi-with-mic", struct.pack(">I", 1) + s_(b"\x06\x09mech")), base),
+              "failed-password": (50, _req(b"alice", b"password", b"\x00" + s_(b"pw")), dict(base, res=2)),
+              "partial-none": (50, _req(b"alice", b"none"), dict(base, res=1)),
+              "rejected-publickey-query": (50, _req(b"alice", b"publickey", b"\x00" + s_(b"toy-a") + s_(b"key1")), dict(base, res=2))}
+    seconds = {"password": (50, _req(b"bob", b"password", b"\x00" + s_(b"pw")), base),
+               "none": (50, _req(b"bob", b"none"), base),
+               "publickey-query": (50, _req(b"bob", b"publickey", b"\x00" + s_(b"toy-a") + s_(b"key1")), base)}
+    with c14.gss_patch(holder):
+        for fname, first in sorted(firsts.items()):
+            for sname, second in sorted(seconds.items()):
+                steps = [(first[0], first[1], first[2], None, {}), (second[0], second[1], second[2], None, {})]
+                w = World(b"SID-n")
+                holder["world"] = w
+                w.deliver(*steps[0][:3])
+                tr = list(w.deliver(*steps[1][:3]))
+                ctx.count(("pin-witness", fname, sname), kind="pin-witness")
+                cbs = [ev for ev in tr if ev[0] in ("cb", "info")]
+                snd = sends(tr)
+                good = (not cbs and any(ev[0] == "close" for ev in tr) and snd
+                        and snd[0][:5] == b"\x01\x00\x00\x00\x0e" and not w.handler.authenticated)
+                if not good:
+                    ctx.fail("username-change-not-rejected:" + fname,
+                             "first contact %s as alice, then %s as bob: not answered by DISCONNECT(no more auth methods) "
+                             "+ close without callbacks" % (fname, sname), case=case_repr(b"SID-n", steps),
+                             expected="DISCONNECT 14, close, no callbacks", observed=repr(tr))
+                    break
 
 
 def loopback_bruteforce(ctx, n):
@@ -274,6 +367,8 @@ def run(ctx):
     ctx.prove(GENS)
     scale = 6 if ctx.thorough else 1
     c14.gss_witness(ctx)        # the shared auth model is of the repaired gssapi paths: name the input if they regress
+    cap_witness(ctx)
+    pin_witness(ctx)
     c14.run_sequences(ctx, 140 * scale, c16_oracle, "seq", profiles=["brute", "brute", "mixed", "lenient"])
     ungated_sequences(ctx, 6 * scale)
     loopback_bruteforce(ctx, 2 if not ctx.thorough else 5)
